@@ -698,7 +698,8 @@ def _check_history_oracle(case, total_formula=None):
             sess.tracker = Tracker()
             k = len(sess.order)
             if total_formula is None:
-                total_formula = not any(mc.tree_has(d, "div", case["defs"]) for d in case["defs"])
+                total_formula = not any(mc.tree_has(d, "div", case["defs"]) or mc.tree_has(d, "sqrtsq", case["defs"])
+                                        for d in case["defs"])
             S_prev, calls_prev, expect_redraw = None, 0, True
             size_at_draw = None
             for idx, o in enumerate(case["ops"]):
